@@ -276,7 +276,8 @@ def check(prop, tier):
         die(2, "HARNESS-ERROR property=%s: %d worker/run errors (not a property verdict)" % (prop, len(errors)))
 
     # determinism re-check on a sample (fresh process, other GOMAXPROCS)
-    sample = [r["seed"] for r in runs[:: max(1, len(runs) // 6)]][:6]
+    complete = [r for r in runs if not r.get("aborted")]
+    sample = [r["seed"] for r in complete[:: max(1, len(complete) // 6)]][:6]
     djobs = [{"mode": "seeds", "property": prop, "thorough": thorough, "seeds": sample, "gomaxprocs": 7, "known_keys": known_keys}]
     dout, drundir = run_workers(djobs, 900)
     by_seed = {r["seed"]: r for r in runs}
@@ -285,6 +286,8 @@ def check(prop, tier):
     for job, results, rc, log in dout:
         for r in results:
             rechecked += 1
+            if r.get("aborted"):
+                continue
             if r["trace_hash"] != by_seed[r["seed"]]["trace_hash"]:
                 div += 1
                 print("NONDETERMINISM seed=%d: %s vs %s" % (r["seed"], r["trace_hash"], by_seed[r["seed"]]["trace_hash"]))
